@@ -17,10 +17,11 @@ func init() {
 	register(&RuleSet{
 		Prop:  "C07",
 		Title: "EDI segments are tokenized exactly at unescaped delimiters",
-		Explanation: "R07a one delimiter table: every delimiter and escape argument of the five cooperating sites of package edi - the segment scanner (ios.NewScannerByDelim*), the three strs.ByteSplitWithEsc levels (ordered by data flow: the split whose input comes from the token is the element level, the split fed by it the repetition level, the split fed by both the component level) and strs.ByteUnescape - is resolved backwards (A5: through reader struct fields, constructors, composite literals and newStrPtrByte-style helpers, call-site sensitive) to the json-tagged field of FileDecl it originates from and must be exactly segment_/element_/repetition_/component_delimiter resp. release_character; the optional levels are guarded by a len()!=0 test of the same delimiter; the bytes stripped from the token end are len() of the segment delimiter and the scanner is configured to include the delimiter; " +
+		Explanation: "R07a one delimiter table: every delimiter and escape argument of the five cooperating sites of package edi - the segment scanner (ios.NewScannerByDelim*), the three strs.ByteSplitWithEsc levels (ordered by data flow: the split whose input comes from the token is the element level, the split fed by it the repetition level, the split fed by both the component level) and strs.ByteUnescape - is resolved backwards (A5: through reader struct fields, constructors, composite literals and newStrPtrByte-style helpers, call-site sensitive) to the json-tagged field of FileDecl it originates from and must be exactly segment_/element_/repetition_/component_delimiter resp. release_character; the optional levels are guarded by a len()!=0 test of the same delimiter; the bytes stripped from the token end are len() of the segment delimiter, the scanner is configured to include the delimiter, and the strip is only applied to tokens known to end with it (constant scanner flags without EofAsDelim, or a dominating bytes.HasSuffix test against the segment delimiter); " +
 			"R07b unescape exactly once: no ByteUnescape on any derivation path of a value stored into RawSegElem.Data, and exactly one on every derivation path from a load of RawSegElem.Data to the data of a text node (idr.CreateNode(TextNode, …)); " +
+			"R07f ignore_crlf: in the function that builds the segment scanner the scanner's source is followed back through ios.NewBytesReplacingReader layers: on the alternative selected by the ignore_crlf field being set both the CR and the LF byte are replaced by nothing, on the other alternative nothing is removed; " +
 			"R07c missing element: in the segment-to-node function every return with a non-nil error carries the reader's fatal type (the type asserted by IsContinuableError's predicate) and a nil node; the block reached when the element is missing, not empty_if_missing and without default ends in such a return without creating a node; text nodes not derived from raw data carry \"\" or *Elem.Default.",
-		NotDecided: "where the bytes are actually split: correctness of ByteIndexWithEsc/ByteSplitWithEsc/ByteUnescape and of the scanner's buffer growth (go-corelib, trusted), multi-byte delimiters, CR/LF dropping (ignore_crlf, CR before an LF delimiter), that `found` is computed from the right index comparison; consumers of the exported NonValidatingReader outside the repository.",
+		NotDecided: "where the bytes are actually split: correctness of ByteIndexWithEsc/ByteSplitWithEsc/ByteUnescape and of the scanner's buffer growth (go-corelib, trusted), multi-byte delimiters, correctness of BytesReplacingReader itself, the other CR/LF rules (CR-only tokens skipped, CR before an LF delimiter), that `found` is computed from the right index comparison; consumers of the exported NonValidatingReader outside the repository.",
 		Trusted:    append([]string{"go-corelib strs.ByteSplitWithEsc / ByteIndexWithEsc / ByteUnescape and ios.NewScannerByDelim3 behave as documented for the (delimiter, escape) they are given", "encoding/json fills FileDecl fields according to their json tags"}, commonTrusted...),
 		Run:        runC07,
 	})
@@ -38,6 +39,19 @@ func init() {
 	control(Control{ID: "c07-strip-elem-delim-len", Prop: "C07", File: rd2,
 		Old: "noSegDelim := token[:len(token)-len(r.segDelim.b)]", New: "noSegDelim := token[:len(token)-len(r.elemDelim.b)]",
 		Rule: "R07a", Substr: "strip", Why: "wrong number of bytes stripped from the token end"})
+	control(Control{ID: "c07-eof-as-delim-unconditional-strip", Prop: "C07", File: rd,
+		Old: "scannerFlags = ios.ScannerByDelimFlagEofNotAsDelim | ios.ScannerByDelimFlagIncludeDelimInReturn", New: "scannerFlags = ios.ScannerByDelimFlagEofAsDelim | ios.ScannerByDelimFlagIncludeDelimInReturn",
+		Rule: "R07a", Substr: "strip is applied only to terminated tokens", Why: "an unterminated final segment is returned as a token but still loses len(delimiter) bytes"})
+	control(Control{ID: "c07-ignore-crlf-not-applied", Prop: "C07", File: rd2,
+		Old: "\tif decl.IgnoreCRLF {\n\t\tr = ios.NewBytesReplacingReader(r, crBytes, nil)\n\t\tr = ios.NewBytesReplacingReader(r, lfBytes, nil)\n\t}\n", New: "",
+		Rule: "R07f", Substr: "ignore_crlf", Why: "CR/LF inside segments reach element values"})
+	control(Control{ID: "c07-ignore-crlf-only-cr", Prop: "C07", File: rd2,
+		Old: "\t\tr = ios.NewBytesReplacingReader(r, lfBytes, nil)\n", New: "",
+		Rule: "R07f", Substr: "ignore_crlf", Why: "LF bytes are no longer removed"})
+	control(Control{ID: "c07-crlf-always-removed", Prop: "C07", File: rd2,
+		Old:  "\tif decl.IgnoreCRLF {\n\t\tr = ios.NewBytesReplacingReader(r, crBytes, nil)\n\t\tr = ios.NewBytesReplacingReader(r, lfBytes, nil)\n\t}\n",
+		New:  "\tif decl.IgnoreCRLF {\n\t\tr = ios.NewBytesReplacingReader(r, crBytes, nil)\n\t}\n\tr = ios.NewBytesReplacingReader(r, lfBytes, nil)\n",
+		Rule: "R07f", Substr: "ignore_crlf", Why: "LF dropped from values although ignore_crlf is not set"})
 	control(Control{ID: "c07-unescape-twice", Prop: "C07", File: rd,
 		Old: "string(strs.ByteUnescape(rawElem.Data, r.releaseChar.b, true))", New: "string(strs.ByteUnescape(strs.ByteUnescape(rawElem.Data, r.releaseChar.b, true), r.releaseChar.b, true))",
 		Rule: "R07b", Substr: "rawSegToNode", Why: "data containing the release character is corrupted"})
@@ -238,6 +252,8 @@ func runC07(c *core.Ctx) {
 
 	// ---------------- R07a scanner
 	nScan := 0
+	eofAsDelim, flagsKnown := false, true
+	var scanners []ssa.CallInstruction
 	for _, f := range fns {
 		for _, ci := range core.Calls(f) {
 			o := core.CalleeObj(ci)
@@ -245,6 +261,7 @@ func runC07(c *core.Ctx) {
 				continue
 			}
 			nScan++
+			scanners = append(scanners, ci)
 			fk := core.FuncKey(f)
 			args := ci.Common().Args
 			sig := o.Type().(*types.Signature)
@@ -283,11 +300,33 @@ func runC07(c *core.Ctx) {
 				}
 			}
 			c.Check(incl, "R07a", fk+" scanner includes delimiter", core.InstrPos(ci), "tokens end with the segment delimiter", "scanner flags drop the delimiter from the token (or are not constant), but the tokenizer strips len(segment delimiter) bytes from every token")
+			// does the scanner hand out the unterminated rest of the input as a token?
+			known := false
+			if fi >= 0 {
+				if k, ok := args[fi].(*ssa.Const); ok && k.Value != nil {
+					if ip := c.AnyPkg(c07IosPkg); ip != nil {
+						if bit, ok := ip.Types.Scope().Lookup("ScannerByDelimFlagEofAsDelim").(*types.Const); ok {
+							fv, ok1 := constant.Uint64Val(constant.ToInt(k.Value))
+							bv, ok2 := constant.Uint64Val(constant.ToInt(bit.Val()))
+							if ok1 && ok2 && bv != 0 {
+								known = true
+								if fv&bv != 0 {
+									eofAsDelim = true
+								}
+							}
+						}
+					}
+				}
+			}
+			if !known {
+				flagsKnown = false
+			}
 		}
 	}
 	if nScan == 0 {
 		c.Unresolved("R07a", "segment scanner", "no ios.NewScannerByDelim* call in package edi")
 	}
+	c07IgnoreCRLF(c, r, res, fns, scanners)
 
 	// ---------------- R07a split levels
 	levelName := []string{"element", "repetition", "component"}
@@ -376,7 +415,7 @@ func runC07(c *core.Ctx) {
 				}
 			}
 			// strip of the segment delimiter on the way from the token to the element split
-			c07Strip(c, splits[0], callersIn, origin)
+			c07Strip(c, splits[0], callersIn, origin, res, eofAsDelim, flagsKnown)
 		}
 	}
 
@@ -388,7 +427,7 @@ func runC07(c *core.Ctx) {
 			}
 		}
 	}
-	c.Floor("R07a", 13, "scanner 3, splits 6 + 2 guards, strip, unescape")
+	c.Floor("R07a", 13, "scanner 3, splits 6 + 2 guards, strip + its soundness, unescape")
 
 	if r.dataFld != nil && r.createNode != nil {
 		c07Unescape(c, r, callersIn)
@@ -449,7 +488,7 @@ func c07LenGuard(b *ssa.BasicBlock, res *a5Resolver, r *c07roles) string {
 }
 
 // c07Strip checks the slice that drops the segment delimiter from the token.
-func c07Strip(c *core.Ctx, elemSplit *ssa.Call, callersIn func(*ssa.Function) []*ssa.Call, origin func(rule, key string, pos token.Pos, v ssa.Value, want string) bool) {
+func c07Strip(c *core.Ctx, elemSplit *ssa.Call, callersIn func(*ssa.Function) []*ssa.Call, origin func(rule, key string, pos token.Pos, v ssa.Value, want string) bool, res *a5Resolver, eofAsDelim, flagsKnown bool) {
 	key := core.FuncKey(elemSplit.Parent()) + " segment delimiter strip"
 	var strips []*ssa.Slice
 	seen := map[ssa.Value]bool{}
@@ -499,8 +538,282 @@ func c07Strip(c *core.Ctx, elemSplit *ssa.Call, callersIn func(*ssa.Function) []
 		c.Bad("R07a", key, core.InstrPos(elemSplit), fmt.Sprintf("expected exactly one token[:len(token)-len(delimiter)] on the way from the token to the element split, found %d", len(strips)))
 		return
 	}
-	l2 := strips[0].High.(*ssa.BinOp).Y.(*ssa.Call)
-	origin("R07a", key, core.InstrPos(strips[0]), l2.Call.Args[0], "segment_delimiter")
+	strip := strips[0]
+	l2 := strip.High.(*ssa.BinOp).Y.(*ssa.Call)
+	origin("R07a", key, core.InstrPos(strip), l2.Call.Args[0], "segment_delimiter")
+
+	// the strip is only sound when the token is known to end with the delimiter: either the scanner never hands out
+	// the unterminated rest of the input (no EofAsDelim), or the strip is dominated by a HasSuffix test of the token
+	// against the same delimiter
+	key2 := key + " is applied only to terminated tokens"
+	guarded := false
+	for x := strip.Block(); x != nil && x.Idom() != nil && !guarded; x = x.Idom() {
+		p := x.Idom()
+		ifi, ok := p.Instrs[len(p.Instrs)-1].(*ssa.If)
+		if !ok {
+			continue
+		}
+		cond, neg := ifi.Cond, false
+		if u, ok := cond.(*ssa.UnOp); ok && u.Op == token.NOT {
+			cond, neg = u.X, true
+		}
+		call, ok := cond.(*ssa.Call)
+		if !ok || !core.IsCallTo(call, "bytes", "HasSuffix") || len(call.Call.Args) != 2 || call.Call.Args[0] != strip.X {
+			continue
+		}
+		if fl := res.Resolve(call.Call.Args[1]).Fields(); len(fl) != 1 || fl[0] != "segment_delimiter" {
+			continue
+		}
+		side := p.Succs[0]
+		if neg {
+			side = p.Succs[1]
+		}
+		if len(side.Preds) == 1 && (side == strip.Block() || side.Dominates(strip.Block())) {
+			guarded = true
+		}
+	}
+	switch {
+	case guarded:
+		c.OK("R07a", key2, core.InstrPos(strip), "dominated by bytes.HasSuffix(token, segment delimiter)")
+	case !flagsKnown:
+		c.Unknown("R07a", key2, core.InstrPos(strip), "the scanner flags are not constant and the strip is not guarded by a suffix test")
+	case eofAsDelim:
+		c.Bad("R07a", key2, core.InstrPos(strip), "the scanner is configured with EofAsDelim, so the last token of an input without final terminator does not end with the segment delimiter, but len(segment delimiter) bytes are stripped from every token unconditionally: the last element of that segment loses its tail")
+	default:
+		c.OK("R07a", key2, core.InstrPos(strip), "the scanner only returns tokens that end with the delimiter (no EofAsDelim, delimiter included)")
+	}
+}
+
+// c07BytesOfGlobal: the constant content of a package-level []byte that is assigned exactly once, in the package
+// initialiser, from a string constant.
+func c07BytesOfGlobal(g *ssa.Global, fns []*ssa.Function) (string, bool) {
+	n := 0
+	val, ok := "", false
+	for _, f := range fns {
+		for _, w := range core.Writes(f) {
+			if w.Global != g {
+				continue
+			}
+			n++
+			if w.Kind != "global" || !(f.Synthetic != "" && f.Name() == "init") {
+				return "", false
+			}
+			if cv, isCv := w.Val.(*ssa.Convert); isCv {
+				if k, isK := cv.X.(*ssa.Const); isK && k.Value != nil && k.Value.Kind() == constant.String {
+					val, ok = constant.StringVal(k.Value), true
+				}
+			}
+		}
+	}
+	return val, ok && n == 1
+}
+
+type c07leaf struct {
+	removed map[string]bool
+	base    ssa.Value
+	why     string
+	pred    *ssa.BasicBlock // block the value arrives from (for Phi edges), nil otherwise
+	phiBlk  *ssa.BasicBlock
+}
+
+// c07ReaderChain follows a reader value back through interface conversions, Phi and ios.NewBytesReplacingReader layers
+// (and repository helpers that wrap their only reader parameter unconditionally) and reports, per alternative, which
+// byte sequences are removed from the stream.
+func c07ReaderChain(v ssa.Value, fns []*ssa.Function, depth int) []c07leaf {
+	removed := map[string]bool{}
+	for i := 0; i < 16; i++ {
+		switch x := v.(type) {
+		case *ssa.MakeInterface:
+			v = x.X
+			continue
+		case *ssa.ChangeInterface:
+			v = x.X
+			continue
+		case *ssa.Phi:
+			var out []c07leaf
+			for j, e := range x.Edges {
+				for _, l := range c07ReaderChain(e, fns, depth+1) {
+					m := map[string]bool{}
+					for k := range removed {
+						m[k] = true
+					}
+					for k := range l.removed {
+						m[k] = true
+					}
+					l.removed = m
+					if l.pred == nil {
+						l.pred, l.phiBlk = x.Block().Preds[j], x.Block()
+					}
+					out = append(out, l)
+				}
+			}
+			return out
+		case *ssa.Call:
+			if core.IsCallTo(x, c07IosPkg, "NewBytesReplacingReader") && len(x.Call.Args) == 3 {
+				search, known := "", false
+				switch a := x.Call.Args[1].(type) {
+				case *ssa.UnOp:
+					if g, ok := a.X.(*ssa.Global); ok && a.Op == token.MUL {
+						search, known = c07BytesOfGlobal(g, fns)
+					}
+				case *ssa.Convert:
+					if k, ok := a.X.(*ssa.Const); ok && k.Value != nil && k.Value.Kind() == constant.String {
+						search, known = constant.StringVal(k.Value), true
+					}
+				}
+				if !known {
+					return []c07leaf{{removed: removed, why: "the byte sequence a replacing reader searches for is not a constant"}}
+				}
+				if core.IsNilConst(x.Call.Args[2]) {
+					removed[search] = true
+				}
+				v = x.Call.Args[0]
+				continue
+			}
+			// helper that wraps its only reader parameter
+			if h := x.Call.StaticCallee(); h != nil && h.Blocks != nil && core.InRepo(core.FuncPkg(h)) && depth < 3 {
+				pi := -1
+				for i, hp := range h.Params {
+					if c18IsIOReader(hp.Type()) {
+						if pi >= 0 {
+							pi = -2
+						}
+						if pi == -1 {
+							pi = i
+						}
+					}
+				}
+				rets := c19Returns(h)
+				if pi >= 0 && len(rets) == 1 && len(rets[0].Results) >= 1 {
+					ls := c07ReaderChain(rets[0].Results[0], fns, depth+1)
+					if len(ls) == 1 && ls[0].why == "" && ls[0].base == ssa.Value(h.Params[pi]) {
+						for k := range ls[0].removed {
+							removed[k] = true
+						}
+						v = x.Call.Args[pi]
+						continue
+					}
+				}
+			}
+			return []c07leaf{{removed: removed, why: "reader produced by " + x.Call.String()}}
+		default:
+			return []c07leaf{{removed: removed, base: v}}
+		}
+	}
+	return []c07leaf{{removed: removed, why: "reader chain too long"}}
+}
+
+// c07IgnoreCRLF: R07f. In the function that builds the segment scanner, the scanner's source removes every CR and every
+// LF exactly on the alternatives selected by the ignore_crlf declaration field.
+func c07IgnoreCRLF(c *core.Ctx, r *c07roles, res *a5Resolver, fns []*ssa.Function, scanners []ssa.CallInstruction) {
+	for _, ci := range scanners {
+		f := ci.Parent()
+		key := core.FuncKey(f) + " ignore_crlf removes CR and LF before the scanner"
+		var rd ssa.Value
+		for _, a := range ci.Common().Args {
+			if c18IsIOReader(a.Type()) {
+				rd = a
+			}
+		}
+		if rd == nil {
+			c.Unknown("R07f", key, core.InstrPos(ci), "scanner call without an io.Reader argument")
+			continue
+		}
+		// tests of the ignore_crlf setting in this function
+		type tst struct{ blk, on, off *ssa.BasicBlock }
+		var tests []tst
+		for _, b := range f.Blocks {
+			ifi, ok := b.Instrs[len(b.Instrs)-1].(*ssa.If)
+			if !ok {
+				continue
+			}
+			cond, neg := ifi.Cond, false
+			if u, ok := cond.(*ssa.UnOp); ok && u.Op == token.NOT {
+				cond, neg = u.X, true
+			}
+			if _, isBool := cond.Type().Underlying().(*types.Basic); !isBool {
+				continue
+			}
+			switch cond.(type) {
+			case *ssa.UnOp, *ssa.Parameter, *ssa.Field:
+			default:
+				continue
+			}
+			o := res.Resolve(cond)
+			if fl := o.Fields(); len(fl) != 1 || fl[0] != "ignore_crlf" || len(o.Others()) > 0 {
+				continue
+			}
+			t := tst{b, b.Succs[0], b.Succs[1]}
+			if neg {
+				t.on, t.off = t.off, t.on
+			}
+			tests = append(tests, t)
+		}
+		leaves := c07ReaderChain(rd, fns, 0)
+		if len(tests) != 1 {
+			c.Bad("R07f", key, core.InstrPos(ci), fmt.Sprintf("the function that builds the segment scanner tests the ignore_crlf setting %d time(s), expected once: CR/LF are not removed from the scanner's input as ignore_crlf says", len(tests)))
+			continue
+		}
+		t := tests[0]
+		isOn := func(l c07leaf) (on, decided bool) {
+			if l.pred == nil {
+				return false, false
+			}
+			if len(t.on.Preds) == 1 && (t.on == l.pred || t.on.Dominates(l.pred)) {
+				return true, true
+			}
+			if l.pred == t.blk && l.phiBlk == t.off {
+				return false, true
+			}
+			if len(t.off.Preds) == 1 && (t.off == l.pred || t.off.Dominates(l.pred)) {
+				return false, true
+			}
+			return false, false
+		}
+		bad, nOn := "", 0
+		var param ssa.Value
+		for _, p := range f.Params {
+			if c18IsIOReader(p.Type()) {
+				param = p
+			}
+		}
+		for _, l := range leaves {
+			if l.why != "" {
+				bad = "source of the scanner not understood: " + l.why
+				break
+			}
+			if l.base != param {
+				bad = "the scanner does not read (a wrapping of) the reader the function is given"
+				break
+			}
+			on, decided := isOn(l)
+			switch {
+			case !decided:
+				bad = "an alternative source of the scanner is not decided by the ignore_crlf test"
+			case on:
+				nOn++
+				if !l.removed["\r"] || !l.removed["\n"] {
+					bad = "with ignore_crlf set the scanner's input does not remove both CR and LF bytes: line breaks end up inside element values"
+				}
+			default:
+				if l.removed["\r"] || l.removed["\n"] {
+					bad = "CR/LF are removed from the input although ignore_crlf is not set"
+				}
+			}
+			if bad != "" {
+				break
+			}
+		}
+		if bad == "" && nOn == 0 {
+			bad = "no source of the scanner is selected by ignore_crlf being set"
+		}
+		if bad != "" {
+			c.Bad("R07f", key, core.InstrPos(ci), bad)
+		} else {
+			c.OK("R07f", key, core.InstrPos(ci), "on the ignore_crlf edge the input passes through BytesReplacingReader(CR -> nothing) and (LF -> nothing); untouched otherwise")
+		}
+	}
+	c.Floor("R07f", 1, "NewNonValidatingReader")
 }
 
 // c07Unescape: R07b.
